@@ -109,6 +109,12 @@ def _tracking_function_job(which: str) -> Callable[[], Record]:
             C = lookup_fn(it, mod + which)
             if which == "ScaleTrackingAutogradFunction":
                 side: Any = {"existing_key": opaque(ctx, "existing")}
+                # the node's meta as an EARLIER forward+backward run of the same graph left it
+                M_ = lookup_fn(it, TS + "Metrics")
+                old = ObjVal(M_)
+                old.attrs["fwd"] = opaque(ctx, "stale_forward_metrics")
+                old.attrs["bwd"] = opaque(ctx, "stale_backward_metrics")
+                side["metrics"] = old
             else:
                 SP = lookup_fn(it, UT + "ScalePair")
                 side = it.call(SP, [], {})
@@ -116,6 +122,9 @@ def _tracking_function_job(which: str) -> Callable[[], Record]:
             def thunk() -> Any:
                 out = it.call(it.getattr(C, "apply"), [t, side], {})
                 eff_fwd = list(ctx.effects)
+                if which == "ScaleTrackingAutogradFunction":
+                    m0 = side.get("metrics")
+                    ctx.__dict__["bwd_after_forward_only"] = m0.attrs.get("bwd", "missing") if isinstance(m0, ObjVal) else "no-metrics"
                 g = z3.Const("g", tz.T)
                 grads = tz.backward(ctx, out, LinComb.of(g), it)
                 return out, t, side, g, grads, eff_fwd
@@ -138,6 +147,7 @@ def _tracking_function_job(which: str) -> Callable[[], Record]:
             G = SymTensor(t.shape, t.dtype, LinComb.of(g), None)
             if which == "ScaleTrackingAutogradFunction":
                 ctx.oblige(f"{tag}:only_the_metrics_entry_is_written", set(side.keys()) == {"existing_key", "metrics"})
+                ctx.oblige(f"{tag}:no_backward_metrics_before_a_gradient_arrives(even if an earlier run recorded some)", ctx.__dict__.get("bwd_after_forward_only", "x") is None, got=str(ctx.__dict__.get("bwd_after_forward_only"))[:80])
                 m = side.get("metrics")
                 okm = isinstance(m, ObjVal)
                 ctx.oblige(f"{tag}:records_Metrics_of_the_tracked_tensor", okm)
@@ -218,6 +228,12 @@ def _run_node_job(which: str, kind: str) -> Callable[[], Record]:
                 v = leaf(ctx, "out", Shape([Run(ctx, "a")]))
                 v.is_parameter = True
                 v.requires_grad = True
+            elif kind == "alias_of_tracked":
+                # a no-op node (contiguous(), .float(), eval-mode dropout ...) returning the very tensor
+                # object an earlier node produced and tracked
+                v = leaf(ctx, "out", Shape([Run(ctx, "a")]))
+                n0 = g.add("call_function", "producer", (), {}, name="producer")
+                n0.meta["__value__"] = v
             else:
                 v = (3, "not a tensor")
             n.meta["__value__"] = v
@@ -226,6 +242,12 @@ def _run_node_job(which: str, kind: str) -> Callable[[], Record]:
 
             def thunk() -> Any:
                 obj = it.call(I, [gm], {})
+                if kind == "alias_of_tracked":
+                    tracked = it.call(it.getattr(obj, "run_node"), [n0], {})
+                    n.meta["__value__"] = tracked
+                    rec.clear()
+                    out = it.call(it.getattr(obj, "run_node"), [n], {})
+                    return out, tracked, n, obj
                 out = it.call(it.getattr(obj, "run_node"), [n], {})
                 return out, v, n, obj
 
@@ -238,7 +260,7 @@ def _run_node_job(which: str, kind: str) -> Callable[[], Record]:
                 ctx.oblige(f"{tag}:no_exception{cs}", False, exc=str(p.exc))
                 return None
             out, v, n, obj = p.value
-            is_float = kind in ("float", "parameter")
+            is_float = kind in ("float", "parameter", "alias_of_tracked")
             if is_float:
                 ctx.oblige(f"{tag}:float_tensor_is_instrumented_once{cs}", len(rec) == 1 and rec[0][1] is v)
                 ctx.oblige(f"{tag}:the_tracked_tensor_is_what_every_consumer_sees(returned value){cs}", isinstance(out, SymTensor) and out.attrs.get("__tracked__") is True)
@@ -262,7 +284,7 @@ def _run_node_job(which: str, kind: str) -> Callable[[], Record]:
 
 
 for _w in ("transforms", "utils"):
-    for _k in ("float", "int", "parameter", "non_tensor"):
+    for _k in ("float", "int", "parameter", "non_tensor", "alias_of_tracked"):
         register(Job(f"c18:run_node[{_w},{_k}]", ["C18"], (TS if _w == "transforms" else UT) + "ScaleTrackingInterpreter.run_node", {"which": _w, "value": _k}, _run_node_job(_w, _k)))
 
 
